@@ -347,6 +347,13 @@ func (self *Interpreter) infixHelper(lhs ast.AnalyzedExpression, rhs ast.Analyze
 		case pAst.MultiplyInfixOperator:
 			floatRes = lhsFloat.Inner * rhsFloat.Inner
 		case pAst.DivideInfixOperator:
+			if rhsFloat.Inner == 0.0 {
+				return nil, nil, value.NewRuntimeErr(
+					"Division by zero error: this is operation is illegal",
+					value.ValueErrorKind,
+					rhs.Span(),
+				)
+			}
 			floatRes = lhsFloat.Inner / rhsFloat.Inner
 		case pAst.PowerInfixOperator:
 			floatRes = math.Pow(lhsFloat.Inner, rhsFloat.Inner)
